@@ -372,13 +372,25 @@ func (env *SpecEnv) trySelect(base Val, field string) (v Val, ok bool) {
 func (env *SpecEnv) index(base, idx Val, n *SNode) Val {
 	st := env.st
 	for p := env.absProbe; p != nil; p = p.outer {
-		if p.off == "" && idx.S == p.name {
-			switch base.K {
-			case KSlice:
-				p.off = base.off()
-			case KString:
-				p.off = base.soff()
+		if idx.S != p.name {
+			continue
+		}
+		o := ""
+		switch base.K {
+		case KSlice:
+			o = base.off()
+		case KString:
+			o = base.soff()
+		default:
+			p.rawUse = true // also indexes a ghost sequence: keep the variable relative
+			continue
+		}
+		if p == env.absProbe {
+			if p.off == "" {
+				p.off = o
 			}
+		} else if p.nestedOff == "" {
+			p.nestedOff = o // use inside a nested quantifier (e.g. v[i] < v[j])
 		}
 	}
 	switch base.K {
@@ -567,6 +579,9 @@ func (env *SpecEnv) evalQuant(n *SNode) Val {
 			env.child(bind).eval(n.Args[2])
 		}()
 		off := env.absProbe.off
+		if off == "" && env.absProbe.nestedOff != "" && !env.absProbe.rawUse {
+			off = env.absProbe.nestedOff
+		}
 		env.absProbe = saved
 		if off != "" && off != "0" {
 			*env.qcount++
@@ -591,7 +606,9 @@ func (env *SpecEnv) evalQuant(n *SNode) Val {
 }
 
 type absProbe struct {
-	outer *absProbe // probes of enclosing quantifiers
+	outer     *absProbe // probes of enclosing quantifiers
+	nestedOff string    // offset of a sequence the variable indexes only inside a nested quantifier
+	rawUse    bool      // the variable also indexes a ghost sequence
 	name string
 	off  string
 }
